@@ -274,6 +274,15 @@ func (m MatchHost) Provision(_ caddy.Context) error {
 	}
 
 	if m.large() {
+		// host names are case-insensitive; the binary search below compares
+		// exact entries byte for byte, so normalize them to lower case here
+		// (and the request host when searching)
+		for i, host := range m {
+			if !m.fuzzy(host) {
+				m[i] = strings.ToLower(host)
+			}
+		}
+
 		// sort the slice lexicographically, grouping "fuzzy" entries (wildcards and placeholders)
 		// at the front of the list; this allows us to use binary search for exact matches, which
 		// we have seen from experience is the most common kind of value in large lists; and any
@@ -314,13 +323,14 @@ func (m MatchHost) MatchWithError(r *http.Request) (bool, error) {
 
 	if m.large() {
 		// fast path: locate exact match using binary search (about 100-1000x faster for large lists)
+		reqHostLower := strings.ToLower(reqHost)
 		pos := sort.Search(len(m), func(i int) bool {
 			if m.fuzzy(m[i]) {
 				return false
 			}
-			return m[i] >= reqHost
+			return m[i] >= reqHostLower
 		})
-		if pos < len(m) && m[pos] == reqHost {
+		if pos < len(m) && m[pos] == reqHostLower {
 			return true, nil
 		}
 	}
